@@ -52,6 +52,8 @@ AtomsQuote3  == {<<97>>, <<EQ, DQUOTE>>, <<DQUOTE>>, <<COMMA>>, <<QM>>, <<SP>>}
 AtomsBadQ    == {<<97>>, <<EQ, DQUOTE>>, <<DQUOTE>>, <<AT>>, <<DEL>>, <<200>>, <<HT>>, <<1>>}
 \* illegal bytes in every state              a = @ DEL 200 SP ; &
 AtomsBad     == {<<97>>, <<EQ>>, <<AT>>, <<DEL>>, <<200>>, <<SP>>, <<SEMI>>, <<AMP>>}
+\* every class of tokAllowedChar               a Z 5 - % [ $ =
+AtomsTokCh   == {<<97>>, <<90>>, <<53>>, <<DASH>>, <<PCT>>, <<LBRACK>>, <<DOLLAR>>, <<EQ>>}
 \* known uri parameter names (Types accumulation)    lr ttl x = ; SP
 AtomsNames   == {KW_lr, KW_ttl, <<120>>, <<EQ>>, <<SEMI>>, <<SP>>}
 \* transport maddr user method LR ; =
